@@ -24,7 +24,13 @@ pub enum Sym {
     /// RTP whose SSRC is the expected one; `next`: seq = last+1 for that source, else a jump.
     Rtp { src: u8, marker: bool, next: bool },
     RtpOther { src: u8 },
-    Rtcp { src: u8 },
+    /// RTCP of packet type `pt` (200..=211: SR ... IDMS, all RTCP by the IANA registry and by the
+    /// latch's own classification) carrying a report block about the expected SSRC.
+    Rtcp {
+        src: u8,
+        #[serde(default = "default_rtcp_pt")]
+        pt: u8,
+    },
     Reset,
     Retarget { to: u8 },
     SelectedPair { to: u8 },
@@ -130,9 +136,17 @@ fn rtp_bytes(ssrc: u32, seq: u16, marker: bool) -> Bytes {
     Bytes::from(b)
 }
 
-fn rtcp_bytes(ssrc: u32) -> Bytes {
-    let mut b = vec![0x80u8, 201, 0x00, 0x01];
+fn default_rtcp_pt() -> u8 {
+    201
+}
+
+/// A receiver-report shaped RTCP packet: header, sender SSRC, one report block about `ssrc`
+/// (so bytes 8..12 - where an RTP header keeps its SSRC - hold the expected SSRC, as in real reports).
+fn rtcp_bytes(ssrc: u32, pt: u8) -> Bytes {
+    let mut b = vec![0x81u8, pt, 0x00, 0x07];
+    b.extend_from_slice(&0x0C18_0C18u32.to_be_bytes());
     b.extend_from_slice(&ssrc.to_be_bytes());
+    b.extend_from_slice(&[0u8; 20]);
     Bytes::from(b)
 }
 
@@ -235,13 +249,13 @@ pub fn interpret(setting: &Setting, seq: &[Sym]) -> Result<usize, Fail> {
                 let pkt = rtp_bytes(ssrc, seqno, marker);
                 futures::executor::block_on(conn.receive(pkt, addr(src), &mut buf));
             }
-            Sym::Rtcp { src } => {
+            Sym::Rtcp { src, pt } => {
                 is_traffic = true;
                 if !sources_seen.contains(&src) {
                     sources_seen.push(src);
                 }
                 futures::executor::block_on(conn.receive(
-                    rtcp_bytes(EXPECTED_SSRC),
+                    rtcp_bytes(EXPECTED_SSRC, pt),
                     addr(src),
                     &mut buf,
                 ));
@@ -404,7 +418,7 @@ pub fn interpret(setting: &Setting, seq: &[Sym]) -> Result<usize, Fail> {
             }
             // RTCP destination
             if after_rtcp != before_rtcp {
-                let Sym::Rtcp { src } = *sym else {
+                let Sym::Rtcp { src, .. } = *sym else {
                     return Err(Fail::new("rtcp-addr-moved-by-rtp", ctx("an RTP packet changed the RTCP destination")));
                 };
                 if !rtcp_is_configured || before_rtcp.is_none() {
@@ -444,7 +458,8 @@ fn alphabet() -> Vec<Sym> {
             }
         }
         a.push(Sym::RtpOther { src });
-        a.push(Sym::Rtcp { src });
+        a.push(Sym::Rtcp { src, pt: 201 });
+        a.push(Sym::Rtcp { src, pt: 210 });
     }
     a.push(Sym::Reset);
     a.push(Sym::Retarget { to: 0 });
@@ -570,7 +585,7 @@ fn sym_strategy() -> impl Strategy<Value = Sym> {
         10 => (0..3u8, any::<bool>(), prop::bool::weighted(0.7)).prop_map(|(src, marker, next)| Sym::Rtp { src, marker, next }),
         8 => (0..3u8, prop::bool::weighted(0.15), prop::bool::weighted(0.7)).prop_map(|(src, marker, next)| Sym::Rtp { src, marker, next }),
         3 => (0..3u8).prop_map(|src| Sym::RtpOther { src }),
-        3 => (0..3u8).prop_map(|src| Sym::Rtcp { src }),
+        3 => (0..3u8, prop_oneof![2 => Just(201u8), 1 => Just(200u8), 3 => 200..=211u8]).prop_map(|(src, pt)| Sym::Rtcp { src, pt }),
         1 => Just(Sym::Reset),
         1 => (0..6u8).prop_map(|to| Sym::Retarget { to }),
         1 => (0..6u8).prop_map(|to| Sym::SelectedPair { to }),
@@ -626,7 +641,7 @@ fn check_case(c: &Case, rec: &CaseRec) -> Check {
 
 pub fn run(ctx: &mut Ctx) {
     ctx.level = "exploration";
-    ctx.rule = "exhaustive: every sequence of length <= L over a 23-symbol alphabet ({source A,B,C} x {RTP matching SSRC x marker x seq step, RTP other SSRC, RTCP} + reset + signaling retarget x2 + selected-pair update x2) for each setting (probation x SSRC known/unknown x RTCP address configured); random: proptest sequences up to 60 symbols, probation 0..8, random/wrapping sequence bases. Non-trivial = traffic from >= 2 distinct sources after latching was enabled; enumerated sequences are distinct by construction, random ones by digest.".into();
+    ctx.rule = "exhaustive: every sequence of length <= L over a 26-symbol alphabet ({source A,B,C} x {RTP matching SSRC x marker x seq step, RTP other SSRC, RTCP type 201 / 210 (random: 200..=211) with a report block on the expected SSRC} + reset + signaling retarget x2 + selected-pair update x2) for each setting (probation x SSRC known/unknown x RTCP address configured); random: proptest sequences up to 60 symbols, probation 0..8, random/wrapping sequence bases. Non-trivial = traffic from >= 2 distinct sources after latching was enabled; enumerated sequences are distinct by construction, random ones by digest.".into();
     ctx.assumptions = vec![
         "initial remote address is non-zero (signaling supplied one) and the socket is not an inbound TCP stream".into(),
         "'lowest first_seq' tie-breaks are accepted under any of: first-arrival or minimum-seen sequence number, plain or wrap-aware comparison".into(),
